@@ -54,3 +54,7 @@ TABLE["C05"] = dict(engine="component", technique="property-based testing: Hypot
 TABLE["C07"] = dict(engine="simworld", technique="property-based testing: Hypothesis-generated contender topologies (listeners, unreachable hints, relay, rogues of 8 kinds, late connect()) with byte-by-byte tape scheduling of every handshake on the simulated network; oracle = one link / two ends / go only after the right handshake / losers shut down at resolution / deadline",
     text="Real TransitSender.connect()/TransitReceiver.connect(), real endpoints, the real transit relay, all on the simulated network where the tape decides when each attempt completes and how many bytes move; a late key-holding prober checks that nothing is confirmed after connect() resolved.",
     note=SIM_NOTE)
+
+TABLE["C04"] = dict(engine="simworld", technique="property-based testing: Hypothesis-generated payloads (text, files around record boundaries, directory trees with empty dirs and odd names) and fault points (cut/flip of the data stream on the selected link, lost or altered acknowledgement) through the real CLI send()/receive() in the simulated world; oracle = success implies byte-exact tree, fault implies no success claim and no final file",
+    text="The real cmd_send.send and cmd_receive.receive run end to end (real mailbox server, real Transit, real temporary directories); faults are applied to the selected transit link once both ends are in records state, and to the receiver's acknowledgement record before encryption.",
+    note=SIM_NOTE + " Permissions/mtimes are not compared.")
